@@ -295,6 +295,8 @@ def main(tier):
     offc['count'] = offc.pop('internal_state.count')
     rep.attempt(acct.check_count_resume, rep, mod, offc, 10)
     rep.attempt(c01.check_tmp_states, rep, 'default')
+    import c06 as _c06
+    rep.attempt(_c06.check_spec_advance, rep)       # error exits of the asm decoders report only bytes that were written
     rep.attempt(c02.check_rollback, rep)
     import rollbackpair
     rep.attempt(rollbackpair.check, rep, mod, c19.field_offsets('struct inflate_state', rollbackpair.IN_FIELDS + rollbackpair.OUT_FIELDS))
